@@ -10,6 +10,10 @@ _Bool g_sender_active, g_recipient_active;
 BusClientPolicy *g_sender_policy, *g_recipient_policy;
 struct verif_ghost { int check_reply_calls, expect_reply_calls, send_checks, recv_checks, complaints; _Bool check_reply_result, send_result, recv_result, send_rr, recv_rr; BusClientPolicy *send_policy_used, *recv_policy_used; } G;
 DBusConnection *g_the_sender, *g_the_recipient;
+long g_out_size, g_out_fds; _Bool g_expect_result, g_lsm_denied; int g_sends;
+static const char g_callee_err[] = "callee.Error";   /* error names set by callees (OOM from check_reply, expect_reply's own errors, LSM hooks) */
+/* loop over a constant bound: unwound by --unwindset verif_name_is.0:64 (not a loop of the function under contract) */
+static int verif_name_is (const char *n, const char *lit) { if (n == NULL) return 0; for (int i = 0; i < 63; i++) { if (n[i] != lit[i]) return 0; if (n[i] == 0) return 1; } return 0; }
 static const char g_bus_name[] = DBUS_SERVICE_DBUS; static const char g_other_name[] = "x.y";
 #define ERR_SET(e) ((e)->name != NULL)
 void _dbus_real_assert (dbus_bool_t condition, const char *condition_text, const char *file, int line, const char *func)
@@ -40,13 +44,13 @@ void dbus_move_error (DBusError *src, DBusError *dest) { PRE(src != NULL, "dbus_
 void verif_stub_dbus_set_error (DBusError *e, const char *name, const char *format, ...) { PRE(name != NULL && (e == NULL || !ERR_SET(e)), "dbus_set_error"); if (e) { e->name = name; e->message = some_string; } }
 dbus_bool_t bus_connections_check_reply (BusConnections *cs, BusTransaction *t, DBusConnection *sending, DBusConnection *receiving, DBusMessage *reply, DBusError *error)
 { PRE(sending != NULL && receiving != NULL && error != NULL && !ERR_SET(error), "bus_connections_check_reply");
-  dbus_bool_t r = nondet_bool(); G.check_reply_calls++; G.check_reply_result = r; if (!r && nondet_bool()) { error->name = some_string; } return r; }
+  dbus_bool_t r = nondet_bool(); G.check_reply_calls++; G.check_reply_result = r; if (!r && nondet_bool()) { error->name = g_callee_err; } return r; }
 dbus_bool_t bus_connections_expect_reply (BusConnections *cs, BusTransaction *t, DBusConnection *will_get, DBusConnection *will_send, DBusMessage *m, DBusError *error)
-{ PRE(will_get != NULL && will_send != NULL && m != NULL, "bus_connections_expect_reply"); dbus_bool_t r = nondet_bool(); G.expect_reply_calls++; if (!r && error) error->name = some_string; return r; }
+{ PRE(will_get != NULL && will_send != NULL && m != NULL, "bus_connections_expect_reply"); dbus_bool_t r = nondet_bool(); G.expect_reply_calls++; g_expect_result = r; if (!r && error) error->name = g_callee_err; return r; }
 dbus_bool_t bus_selinux_allows_send (DBusConnection *s, DBusConnection *r, const char *a, const char *b, const char *c, const char *d, const char *e, BusActivationEntry *ae, DBusError *error)
-{ dbus_bool_t ok = nondet_bool(); if (!ok && error && nondet_bool()) error->name = some_string; return ok; }
+{ dbus_bool_t ok = nondet_bool(); if (!ok) g_lsm_denied = 1; if (!ok && error && nondet_bool()) error->name = g_callee_err; return ok; }
 dbus_bool_t bus_apparmor_allows_send (DBusConnection *s, DBusConnection *r, dbus_bool_t rr, const char *bt, int mt, const char *p, const char *i, const char *m, const char *en, const char *d, const char *src, BusActivationEntry *ae, DBusError *error)
-{ dbus_bool_t ok = nondet_bool(); if (!ok && error) error->name = some_string; return ok; }
+{ dbus_bool_t ok = nondet_bool(); if (!ok) g_lsm_denied = 1; if (!ok && error) error->name = g_callee_err; return ok; }
 void verif_stub_complain_about_message (BusContext *context, const char *error_name, const char *complaint, int matched_rules, DBusMessage *message, DBusConnection *sender, DBusConnection *proposed_recipient, dbus_bool_t requested_reply, dbus_bool_t log, DBusError *error)
 { PRE(error_name != NULL && (error == NULL || !ERR_SET(error)), "complain_about_message"); G.complaints++; if (error) { error->name = error_name; error->message = some_string; } }
 dbus_bool_t bus_client_policy_check_can_send (BusClientPolicy *policy, BusRegistry *registry, dbus_bool_t requested_reply, DBusConnection *receiver, DBusMessage *message, dbus_int32_t *toggles, dbus_bool_t *log)
@@ -55,8 +59,13 @@ dbus_bool_t bus_client_policy_check_can_send (BusClientPolicy *policy, BusRegist
 dbus_bool_t bus_client_policy_check_can_receive (BusClientPolicy *policy, BusRegistry *registry, dbus_bool_t requested_reply, DBusConnection *sender, DBusConnection *addressed, DBusConnection *proposed, DBusMessage *message, dbus_int32_t *toggles)
 { PRE(policy != NULL && toggles != NULL, "bus_client_policy_check_can_receive"); dbus_bool_t r = nondet_bool(); *toggles = nondet_int();
   G.recv_checks++; G.recv_result = r; G.recv_rr = (requested_reply != 0); G.recv_policy_used = policy; return r; }
-long dbus_connection_get_outgoing_size (DBusConnection *c) { return nondet_long(); }
-long dbus_connection_get_outgoing_unix_fds (DBusConnection *c) { return nondet_long(); }
+long dbus_connection_get_outgoing_size (DBusConnection *c) { PRE(c == g_the_recipient, "dbus_connection_get_outgoing_size: the proposed recipient"); return g_out_size; }
+long dbus_connection_get_outgoing_unix_fds (DBusConnection *c) { PRE(c == g_the_recipient, "dbus_connection_get_outgoing_unix_fds: the proposed recipient"); return g_out_fds; }
+/* the gate decides, it never sends: any call of a send primitive from it is a violation ("a denied message is delivered to no one") */
+dbus_bool_t bus_transaction_send (BusTransaction *t, DBusConnection *c, DBusMessage *m) { PRE(0, "bus_transaction_send: the gate never sends"); g_sends++; return TRUE; }
+dbus_bool_t bus_transaction_send_from_driver (BusTransaction *t, DBusConnection *c, DBusMessage *m) { PRE(0, "bus_transaction_send_from_driver: the gate never sends"); g_sends++; return TRUE; }
+dbus_bool_t bus_transaction_send_error_reply (BusTransaction *t, DBusConnection *c, const DBusError *e, DBusMessage *m) { PRE(0, "bus_transaction_send_error_reply: the gate never sends"); g_sends++; return TRUE; }
+dbus_bool_t dbus_connection_send (DBusConnection *c, DBusMessage *m, dbus_uint32_t *serial) { PRE(0, "dbus_connection_send: the gate never sends"); g_sends++; return TRUE; }
 #define IS_KNOWN_TYPE(t) ((t)==DBUS_MESSAGE_TYPE_METHOD_CALL||(t)==DBUS_MESSAGE_TYPE_SIGNAL||(t)==DBUS_MESSAGE_TYPE_METHOD_RETURN||(t)==DBUS_MESSAGE_TYPE_ERROR)
 #define IMP(a,b) (!(a) || (b))
 void harness(void)
@@ -68,6 +77,7 @@ void harness(void)
   DBusConnection *addressed = nondet_bool() ? proposed : (nondet_bool() ? (DBusConnection*)&ao : NULL);
   err.name = NULL; err.message = NULL;
   g_type = nondet_int(); g_reply_serial = (dbus_uint32_t)nondet_int(); g_has_dest = nondet_bool(); g_dest_is_bus = nondet_bool(); g_is_hello = nondet_bool();
+  g_out_size = nondet_long(); g_out_fds = nondet_long();
   g_sender_active = nondet_bool(); g_recipient_active = nondet_bool(); g_sender_policy = nondet_ptr(); g_recipient_policy = nondet_ptr();
   ctx.limits.max_outgoing_bytes = nondet_long(); ctx.limits.max_outgoing_unix_fds = nondet_long();
   __CPROVER_assume(IMP(g_sender_active, g_sender_policy != NULL) && IMP(g_recipient_active, g_recipient_policy != NULL));
@@ -87,6 +97,25 @@ void harness(void)
   __CPROVER_assert(G.expect_reply_calls <= 1, "post7a");
   __CPROVER_assert(IMP(G.expect_reply_calls == 1, g_type == DBUS_MESSAGE_TYPE_METHOD_CALL && sender && addressed && addressed == proposed && (G.send_checks == 0 || G.send_result) && (G.recv_checks == 0 || G.recv_result)), "post7b slot only for admitted addressed method call");
   __CPROVER_assert(IMP(ret && g_type == DBUS_MESSAGE_TYPE_METHOD_CALL && sender && g_sender_active && addressed && addressed == proposed, G.expect_reply_calls == 1), "post7c");
+  /* ---- outcome of a denial (property C06: "a denied method call earns its sender an AccessDenied error"; dbus-daemon(1) <limit>: a full
+   *      outgoing queue is LimitsExceeded); errors produced by callees are passed through unchanged ---- */
+  int is_ad = verif_name_is(err.name, "org.freedesktop.DBus.Error.AccessDenied"), is_le = verif_name_is(err.name, "org.freedesktop.DBus.Error.LimitsExceeded");
+  int queue_full = proposed != NULL && (g_out_size > ctx.limits.max_outgoing_bytes || g_out_fds > ctx.limits.max_outgoing_unix_fds);
+  __CPROVER_assert(IMP(!ret, is_ad || is_le || err.name == g_callee_err), "post8 refusal is AccessDenied, LimitsExceeded or the callee's own error");
+  __CPROVER_assert(IMP(!IS_KNOWN_TYPE(g_type), !ret && is_ad), "post8a unknown message type => AccessDenied");
+  __CPROVER_assert(IMP(G.send_checks == 1 && !G.send_result, !ret && is_ad && G.recv_checks == 0), "post8b send rules deny => AccessDenied, receive rules not even consulted");
+  __CPROVER_assert(IMP(G.recv_checks == 1 && !G.recv_result, !ret && is_ad), "post8c receive rules deny => AccessDenied");
+  __CPROVER_assert(IMP(!ret && sender && !g_sender_active && !g_lsm_denied && G.check_reply_calls == 0, is_ad), "post8d inactive sender, anything but Hello to the bus => AccessDenied");
+  __CPROVER_assert(IMP(is_le, !ret && queue_full && (G.send_checks == 0 || G.send_result) && (G.recv_checks == 0 || G.recv_result)), "post8e LimitsExceeded only for a full recipient queue after both rule scans allowed");
+  __CPROVER_assert(IMP(!ret && queue_full && IS_KNOWN_TYPE(g_type) && !(sender && !g_sender_active) && !g_lsm_denied && err.name != g_callee_err && (G.send_checks == 0 || G.send_result) && (G.recv_checks == 0 || G.recv_result), is_le), "post8g full recipient queue, everything else allowed => LimitsExceeded (not AccessDenied)");
+  __CPROVER_assert(IMP(ret && !(sender && !g_sender_active), !queue_full), "post8f never admitted into a full queue");
+  __CPROVER_assert(IMP(!ret && G.expect_reply_calls == 1, !g_expect_result), "post9 a refused message opens no reply slot (expect_reply is the last step and its failure is the refusal)");
+  __CPROVER_assert(IMP(ret && G.expect_reply_calls == 1, g_expect_result), "post9b admitted with slot => the slot was recorded");
+  __CPROVER_assert(g_sends == 0, "post10 the gate sends nothing");
+  __CPROVER_assert(IMP(!ret && (is_ad || is_le) && IS_KNOWN_TYPE(g_type) && !(sender && !g_sender_active) && !g_lsm_denied, G.complaints >= 1), "post11 a policy or limit refusal is logged/complained about");
+  if (!ret && is_le) __CPROVER_assert(0, "REACH:limits-exceeded");
+  if (!ret && is_ad && G.recv_checks == 1) __CPROVER_assert(0, "REACH:receive-denied");
+  if (!ret && err.name == g_callee_err) __CPROVER_assert(0, "REACH:callee-error");
   if (ret) __CPROVER_assert(0, "REACH:allowed"); else __CPROVER_assert(0, "REACH:denied");
   if (ret && G.expect_reply_calls == 1) __CPROVER_assert(0, "REACH:slot-recorded");
   if (ret && G.check_reply_calls == 1) __CPROVER_assert(0, "REACH:reply-consumed");
